@@ -104,6 +104,31 @@ def operands(p):
     return out
 
 
+def carry_chain_pairs(p):
+    """Pairs of residues whose *Montgomery forms* a', b' multiply to a double-length product with long runs of all-one
+    words (a' = 2^m - 1, b' = (2^(64 k) - 1) // a' - delta): the carry out of a reduction round then ripples through
+    several words of the product - the situation a shortened carry chain in a specialised reduction loop mishandles,
+    and one that random or 'nice' residues meet with probability 2^-64."""
+    nw = (p.bit_length() + 63) // 64
+    R = 1 << (64 * nw)
+    rinv = pow(R, -1, p)
+    out = []
+    for m in (32 * nw + 1, 32 * nw + 2, 40 * nw, 64 * nw - 3):
+        a1 = (1 << m) - 1
+        if a1 >= p:
+            continue
+        for k in (nw + 1, nw + 2, nw + nw // 2, 2 * nw - 1):
+            for delta in (1, 2):
+                b1 = ((1 << (64 * k)) - 1) // a1 - delta
+                if 0 < b1 < p:
+                    out.append((a1 * rinv % p, b1 * rinv % p))
+    seen = []
+    for pr in out:
+        if pr not in seen:
+            seen.append(pr)
+    return seen
+
+
 class Ctx(object):
     def __init__(self, prog, p):
         self.m = m = Machine(prog, SRC, budget=40000000)
@@ -158,6 +183,8 @@ def mont_rows(prog, sh=None, inverse=False, thorough=False):
             # a fixed spread: every operand appears on both sides
             step = max(1, len(pairs) // QUICK_PAIRS)
             pairs = [pairs[(i * (step + 1)) % len(pairs)] for i in range(QUICK_PAIRS)]
+        cc = carry_chain_pairs(p)
+        pairs = pairs + (cc if thorough else cc[:10])
         pairs = [pr for i, pr in enumerate(pairs) if halves[i % 2]]
         c = None
         for (a, b) in pairs:
